@@ -29,6 +29,11 @@ def ob_to_dict(ob):
         "smt2": None if ob.meta.get("trivial") else solve.to_smt2(ob.facts, ob.goal),
         "residuals": {},
     }
+    lf = getattr(ob, "light_facts", None)
+    if lf is not None:
+        # the clause was decided False on this path: it is refuted iff the path is feasible; the quantifier-free path
+        # condition is checked on its own (quantified facts are definitions of fresh symbols / model axioms)
+        d["smt2_path_condition"] = solve.to_smt2(lf, z3.BoolVal(False))
     for cname, cls in (ob.meta.get("classes") or {}).items():
         d["residuals"][cname] = solve.to_smt2(ob.facts + [z3.Not(cls)], ob.goal)
     return d
